@@ -359,14 +359,15 @@ def run(ctx, obl):
             impl[mid] = {"msg-stable": tf(all(m == ob["msgs"][0] for m in ob["msgs"]))}
     for idx, (sp, outs) in enumerate(zip(specials, sres)):
         cid = "s%d" % idx
-        if any(rc != 0 for rc, _ in outs):
+        if sp["kind"] == "getgofile" and any(rc != 0 for rc, _ in outs):
             raise core.InfraError("special case %s does not generate: %s" % (sp["kind"], sp["args"]))
         if sp["kind"] == "getgofile":
             seen = sorted(set(fn.split(".shoot")[0] + ".go" for _, o in outs for fn in o))
             im = {"gofile": ",".join(seen)}
         else:
             # which parameter fills the placeholder is visible in the generated text; count the distinct outputs
-            im = {"variants": str(len(set(tuple(sorted(o.items())) for _, o in outs)))}
+            im = {"variants": str(len(set((rc != 0, tuple(sorted(o.items()))) for rc, o in outs))),
+                  "exit": "fail" if all(rc != 0 and not o for rc, o in outs) else "0" if all(rc == 0 for rc, _ in outs) else "mixed"}
         cases.append({"id": cid, "sexp": dump(["case", cid, "detorder"] + sp["payload"]), "cmd": "shoot " + " ".join(sp["args"]),
                       "key": cid, "files": json.dumps(sp["files"]), "ntypes": 2, "special": sp["kind"]})
         impl[cid] = im
